@@ -14,3 +14,7 @@ pub assume_specification<T: Ord>[core::cmp::max::<T>](a: T, b: T) -> (r: T)
     ensures
         a.partial_cmp_spec(&b) == Some(core::cmp::Ordering::Greater) ==> r == a,
         a.partial_cmp_spec(&b) != Some(core::cmp::Ordering::Greater) ==> r == b;
+pub assume_specification<T: Ord>[core::cmp::min::<T>](a: T, b: T) -> (r: T)
+    ensures
+        a.partial_cmp_spec(&b) == Some(core::cmp::Ordering::Greater) ==> r == b,
+        a.partial_cmp_spec(&b) != Some(core::cmp::Ordering::Greater) ==> r == a;
